@@ -129,6 +129,14 @@ add('C19', 'model_checking', 'exhaustive enumeration of recording sets x selecti
     'order, a failing tuner yields its own error object for that category only.',
     'In-process execution only (worker routing is C08); lookup window is "last day" on the real clock (windows are C16).')
 
+add('C12', 'model_checking', 'stateless exploration of all thread interleavings up to a preemption bound (iterative context bounding) of the real async cassette under a hand-written baton scheduler',
+    'The real AsyncRecordOnlyTapeCassette/AsyncRecording run with Lock, Event and Thread replaced by scheduler-owned ones; seven workloads (1-3 producers, '
+    'closer, flusher) x every placement of one failing wrapped operation x flush-timer budgets 0..2 are explored under ALL interleavings with <=1 '
+    'preemption (quick; W1/W2 also <=2) / <=2 (thorough), scheduling points at every line of the module, every opcode of the functions touching the '
+    'buffer or its lock, and every storage call: every requested operation is applied exactly once in request order, the final store equals the '
+    'synchronous twin minus the failing operation, the wrapped cassette is closed last, no storage call happens under the buffer lock, no deadlock.',
+    'join(timeout) modelled as not timing out; opcode-granular preemption over-approximates CPython; the schedule bound completed per workload is listed in the evidence.')
+
 NOT_YET = {}
 
 
